@@ -126,7 +126,7 @@ static int w_enabled(mc_op_t o)
 static void m_drop(int a)
 {
     int b = O[a].buf;
-    if (b >= 0) { if (--B[b].refs == 0) { B[b].live = 0; MC_COUNT(K_LAST_REF_DROP); if (B[b].internal && B[b].blk >= 0 && ngone < 16) gone_blk[ngone++] = B[b].blk; } }
+    if (b >= 0) { if (--B[b].refs == 0) { B[b].live = 0; MC_COUNT(K_LAST_REF_DROP); if (B[b].internal && B[b].blk >= 0 && B[b].nm * B[b].sz > 0 && ngone < 16) gone_blk[ngone++] = B[b].blk;      /* a buffer of zero bytes has no storage of its own to give back */ } }
     O[a].buf = -1; O[a].off = O[a].len = 0;
 }
 static int m_newbuf(int internal, int ext, size_t nm, size_t sz)
@@ -149,7 +149,14 @@ static void check_accounting(const char *when)
     MC_CHECK(PC14, shim_nlive() >= live_bufs(), "%s: %d allocations alive for %d buffer(s) still referenced (at least one per buffer; how many blocks a buffer uses is the library's business)", when, shim_nlive(), live_bufs());
     /* "released exactly once afterwards": the allocation that held the elements of a buffer must be gone as soon as no array object refers to the buffer
      * (the allocation layer reports a second release).  Bookkeeping the library keeps for itself - a cached control block, say - is not the buffer. */
-    for (g = 0; g < ngone; g++) MC_CHECK(PC14, !shim_blks[gone_blk[g]].live, "%s: the storage of a buffer that no array object refers to any more is still allocated (%zu bytes)", when, shim_blks[gone_blk[g]].sz);
+    for (g = 0; g < ngone; g++) {
+        /* ... unless the library has meanwhile made the same block the storage of a buffer that IS referenced (a re-allocation of an unshared
+         * buffer of the same byte size may legally reuse the block instead of freeing and allocating) */
+        int b2, reused = 0;
+        for (b2 = 0; b2 < (int)(sizeof B / sizeof B[0]); b2++) if (B[b2].live && B[b2].internal && B[b2].blk == gone_blk[g]) reused = 1;
+        if (reused) continue;
+        MC_CHECK(PC14, !shim_blks[gone_blk[g]].live, "%s: the storage of a buffer that no array object refers to any more is still allocated (%zu bytes)", when, shim_blks[gone_blk[g]].sz);
+    }
     MC_CHECK(PC14, shim_errors == 0, "%s: a pointer was passed to free() that is not a live allocation of the library (double or foreign free)", when);
 }
 
